@@ -112,7 +112,9 @@ def stepC16 (op obs : String) : String :=
           | none => true
         if !crossOk then "BADOP proved-model-and-extended-model-disagree" else
         match showRes input.length (asIs input) with
-        | none => "BADOP model-fuel-or-unmodelled-branch"
+        | none =>
+          -- an arbitrary input that leaves the modelled fragment carries no claim
+          if kind == "any" then "OK outside-model" else "BADOP model-fuel-or-unmodelled-branch"
         | some m =>
           if kind == "any" then (if m == obs then "OK" else s!"DIVERGE model={m}") else
           let div := if m == obs then "" else s!" ;DIVERGE model={m}"
